@@ -1,2 +1,77 @@
--- stub: driver for C05 not written yet
-def main : IO Unit := pure ()
+import CMacVerif.Model.HLLC
+import CMacVerif.Inst.Float
+import CMacVerif.Util.Bits
+/-!
+Line-protocol driver for C05: the `Float` instantiation of the HLLC / vacuum models.
+
+ops (all doubles as decimal bit patterns):
+* `f|t|m|i|d  rhoL uLx uLy uLz PL rhoR uRx uRy uRz PR nx ny nz vfx vfy vfz gamma wx wy wz`
+    → `F <coarse> m px py pz e X <flag m px py pz e | none> #<branch>`
+* `x gamma rhoL uL PL rhoR uR PR dxdt`      (ExactRiemannSolver::solve, vacuum exits only)
+    → `X <flag rho u P | none> #<tag>`
+* `sr|sl gamma rho u P a dxdt`, `sg gamma rhoL uL PL aL rhoR uR PR aR dxdt`  (private samplers)
+    → `S E <flag rho u P> H <flag rho u P> #<tag>`
+-/
+open CMacVerif CMacVerif.Util CMacVerif.RiemannVacuum
+
+/-- `DBL_MIN` = 2^-1022 -/
+def dblMin : Float := Float.ofBits 0x0010000000000000
+/-- 2^-1024: largest double whose reciprocal is `inf` -/
+def ovfThr : Float := Float.ofBits 0x0004000000000000
+
+def fl (s : String) : Float := fOfBits (nat! s)
+
+def showFlux (f : Flux Float) : String :=
+  s!"{showF f.m} {showF f.p.x} {showF f.p.y} {showF f.p.z} {showF f.e}"
+
+def showSample (s : Sample Float) : String :=
+  s!"{s.flag} {showF s.rho} {showF s.u} {showF s.P}"
+
+/-- coarse branch class that the harness can also observe on the real class -/
+def coarse (br : Nat) : Nat :=
+  if br == 12 then 11 else if br == 22 then 21 else if br == 33 then 32 else if br == 35 then 34
+  else if br < 40 then br else 40
+
+def step (_ : Unit) : List String → Unit × String
+  | [k, rhoL, uLx, uLy, uLz, pL, rhoR, uRx, uRy, uRz, pR, nx, ny, nz, vfx, vfy, vfz, g, _, _, _] =>
+    if k == "f" || k == "t" || k == "m" || k == "i" || k == "d" then
+      let uL : V3 Float := ⟨fl uLx, fl uLy, fl uLz⟩
+      let uR : V3 Float := ⟨fl uRx, fl uRy, fl uRz⟩
+      let n : V3 Float := ⟨fl nx, fl ny, fl nz⟩
+      let vf : V3 Float := ⟨fl vfx, fl vfy, fl vfz⟩
+      let h := HLLC.solveForFlux dblMin ovfThr (fl g) (fl rhoL) uL (fl pL) (fl rhoR) uR (fl pR) n vf
+      let x := solveForFluxIfVacuum ovfThr (fl g) (fl rhoL) uL (fl pL) (fl rhoR) uR (fl pR) n vf
+      let ff := faceFrame uL uR n vf
+      let xflag : Int := match solveIfVacuum ovfThr (fl g) (fl rhoL) ff.vL (fl pL) (fl rhoR) ff.vR (fl pR) 0.0 with
+        | some sm => sm.flag
+        | none => 9
+      let xs := match x with
+        | some fx => s!"{xflag} {showFlux fx}"
+        | none => "none"
+      let xb := match x with
+        | some fx => fx.br
+        | none => 50
+      ((), s!"F {coarse h.br} {showFlux h} X {xs} #h{h.br}x{xb}")
+    else ((), "bad-op")
+  | ["x", g, rhoL, uL, pL, rhoR, uR, pR, dxdt, _] =>
+    match solveIfVacuum ovfThr (fl g) (fl rhoL) (fl uL) (fl pL) (fl rhoR) (fl uR) (fl pR) (fl dxdt) with
+    | some s => ((), s!"X {showSample s} #x{s.tag}")
+    | none => ((), "X none #x50")
+  | ["sr", g, rho, u, p, a, dxdt] =>
+    let G := effGamma (fl g)
+    let e := sampleRightVacuum G (fl rho) (fl u) (fl p) (fl a) (fl dxdt)
+    let h := HLLC.sampleRightVacuum G (fl rho) (fl u) (fl p) (fl a)
+    ((), s!"S E {showSample e} H {showSample h} #s{e.tag}h{h.tag}")
+  | ["sl", g, rho, u, p, a, dxdt] =>
+    let G := effGamma (fl g)
+    let e := sampleLeftVacuum G (fl rho) (fl u) (fl p) (fl a) (fl dxdt)
+    let h := HLLC.sampleLeftVacuum G (fl rho) (fl u) (fl p) (fl a)
+    ((), s!"S E {showSample e} H {showSample h} #s{e.tag}h{h.tag}")
+  | ["sg", g, rhoL, uL, pL, aL, rhoR, uR, pR, aR, dxdt] =>
+    let G := effGamma (fl g)
+    let e := sampleVacuumGeneration G (fl rhoL) (fl uL) (fl pL) (fl aL) (fl rhoR) (fl uR) (fl pR) (fl aR) (fl dxdt)
+    let h := HLLC.sampleVacuumGeneration G (fl rhoL) (fl uL) (fl pL) (fl aL) (fl rhoR) (fl uR) (fl pR) (fl aR)
+    ((), s!"S E {showSample e} H {showSample h} #s{e.tag}h{h.tag}")
+  | _ => ((), "bad-op")
+
+def main : IO Unit := runDriver step ()
